@@ -5,7 +5,10 @@
 (* for TERM/QUIT and the interrupt loop for INT), the goroutine an INT     *)
 (* spawns, the sync.Once around the shutdown callbacks, and casket.Stop.    *)
 (* Signals are delivered into channels of capacity one (signal.Notify      *)
-(* drops what does not fit).                                               *)
+(* drops what does not fit).  Optionally one instance's shutdown callback    *)
+(* spawns a goroutine that stops that very instance (Instance.Stop), which *)
+(* splices it out of the instance list while the walk over that list is    *)
+(* under way - the walk holds instancesMu, so the splice waits for it.     *)
 (***************************************************************************)
 EXTENDS Naturals, Sequences, FiniteSets, TLC, Json
 
@@ -29,22 +32,26 @@ VARIABLES
     ran,        \* [instance -> [kind -> times run]]
     stopped,    \* instances whose servers were stopped by casket.Stop
     si,         \* casket.Stop iterator
-    exited      \* "no" | "term" | "int" | "quit" | "force"
-vars == <<n, pending, pch, ich, ppc, ipc, ints, jpc, once, runner, ci, ck, ran, stopped, si, exited>>
+    exited,     \* "no" | "term" | "int" | "quit" | "force"
+    stopper,    \* 0, or the instance whose shutdown callback spawns "go inst.Stop()" on itself
+    spc,        \* that goroutine: "none" | "servers" | "splice" | "done"
+    list        \* the package-level instance list (sequence of instances)
+vars == <<n, pending, pch, ich, ppc, ipc, ints, jpc, once, runner, ci, ck, ran, stopped, si, exited, stopper, spc, list>>
 
 KindAt(i) == IF i = 1 THEN "shutdown" ELSE "final"
 
 RECURSIVE SeqsUpTo(_)
 SeqsUpTo(m) == IF m = 0 THEN {<<>>} ELSE SeqsUpTo(m - 1) \cup {Append(s, x) : s \in {t \in SeqsUpTo(m - 1) : Len(t) = m - 1}, x \in Sig}
 
-InitWith(nn, sigs) ==
+InitWith(nn, sigs, st) ==
     /\ n = nn /\ pending = sigs
+    /\ stopper = st /\ spc = "none" /\ list = [i \in 1..nn |-> i]
     /\ pch = <<>> /\ ich = <<>> /\ ppc = "wait" /\ ipc = "wait" /\ ints = 0 /\ jpc = "none"
     /\ once = "idle" /\ runner = "-" /\ ci = 1 /\ ck = 1
     /\ ran = [i \in Insts |-> [kd \in Kind |-> 0]]
     /\ stopped = {} /\ si = 1 /\ exited = "no"
 
-Init == \E nn \in Insts, sigs \in SeqsUpTo(MaxSigs) : sigs # <<>> /\ InitWith(nn, sigs)
+Init == \E nn \in Insts, sigs \in SeqsUpTo(MaxSigs) : sigs # <<>> /\ \E st \in 0..nn : InitWith(nn, sigs, st)
 
 Alive == exited = "no"
 
@@ -59,7 +66,7 @@ Deliver ==
         /\ IF pending[i] = "INT"
              THEN ich' = (IF ich = <<>> THEN <<"INT">> ELSE ich) /\ UNCHANGED pch
              ELSE pch' = (IF pch = <<>> THEN <<pending[i]>> ELSE pch) /\ UNCHANGED ich
-    /\ UNCHANGED <<n, ppc, ipc, ints, jpc, once, runner, ci, ck, ran, stopped, si, exited>>
+    /\ UNCHANGED <<n, ppc, ipc, ints, jpc, once, runner, ci, ck, ran, stopped, si, exited, stopper, spc, list>>
 
 \* POSIX loop takes a signal: QUIT exits at once, TERM goes for the callbacks
 PTake ==
@@ -67,39 +74,54 @@ PTake ==
     /\ pch' = <<>>
     /\ IF Head(pch) = "QUIT" THEN exited' = "quit" /\ UNCHANGED ppc
                                ELSE ppc' = "once" /\ UNCHANGED exited
-    /\ UNCHANGED <<n, pending, ich, ipc, ints, jpc, once, runner, ci, ck, ran, stopped, si>>
+    /\ UNCHANGED <<n, pending, ich, ipc, ints, jpc, once, runner, ci, ck, ran, stopped, si, stopper, spc, list>>
 
 \* entering executeShutdownCallbacks: the first caller runs them, a concurrent one waits
 \* (no step enabled while once = "running"), a later one passes
 POnce == /\ Alive /\ ppc = "once"
          /\ \/ once = "idle" /\ once' = "running" /\ runner' = "p" /\ ci' = 1 /\ ck' = 1 /\ ppc' = "cbs"
             \/ once = "done" /\ ppc' = "stop" /\ UNCHANGED <<once, runner, ci, ck>>
-         /\ UNCHANGED <<n, pending, pch, ich, ipc, ints, jpc, ran, stopped, si, exited>>
+         /\ UNCHANGED <<n, pending, pch, ich, ipc, ints, jpc, ran, stopped, si, exited, stopper, spc, list>>
 JOnce == /\ Alive /\ jpc = "once"
          /\ \/ once = "idle" /\ once' = "running" /\ runner' = "j" /\ ci' = 1 /\ ck' = 1 /\ jpc' = "cbs"
             \/ once = "done" /\ jpc' = "exit" /\ UNCHANGED <<once, runner, ci, ck>>
-         /\ UNCHANGED <<n, pending, pch, ich, ppc, ipc, ints, ran, stopped, si, exited>>
+         /\ UNCHANGED <<n, pending, pch, ich, ppc, ipc, ints, ran, stopped, si, exited, stopper, spc, list>>
 
 \* one callback list of one instance runs (allShutdownCallbacks: instance by instance,
 \* OnShutdown then OnFinalShutdown)
+\* (the walk holds instancesMu from its first to its last step, so the list it ranges over is
+\* the list as it was when the walk began: ci is an index into it)
 RunCb(who) ==
-    /\ Alive /\ once = "running" /\ runner = who /\ ci <= n
-    /\ ran' = [ran EXCEPT ![ci][KindAt(ck)] = @ + 1]
+    /\ Alive /\ once = "running" /\ runner = who /\ ci <= Len(list)
+    /\ ran' = [ran EXCEPT ![list[ci]][KindAt(ck)] = @ + 1]
     /\ IF ck = 1 THEN ck' = 2 /\ UNCHANGED ci ELSE ck' = 1 /\ ci' = ci + 1
-    /\ UNCHANGED <<n, pending, pch, ich, ppc, ipc, ints, jpc, once, runner, stopped, si, exited>>
+    /\ spc' = (IF ck = 1 /\ list[ci] = stopper /\ spc = "none" THEN "servers" ELSE spc)
+    /\ UNCHANGED <<n, pending, pch, ich, ppc, ipc, ints, jpc, once, runner, stopped, si, exited, stopper, list>>
+
+\* the goroutine spawned by that callback: Instance.Stop stops the servers ...
+StopperServers ==
+    /\ Alive /\ spc = "servers"
+    /\ stopped' = stopped \cup {stopper} /\ spc' = "splice"
+    /\ UNCHANGED <<n, pending, pch, ich, ppc, ipc, ints, jpc, once, runner, ci, ck, ran, si, exited, stopper, list>>
+\* ... and splices the instance out of the list, for which it needs instancesMu
+StopperSplice ==
+    /\ Alive /\ spc = "splice" /\ once # "running"
+    /\ list' = SelectSeq(list, LAMBDA x : x # stopper) /\ spc' = "done"
+    /\ UNCHANGED <<n, pending, pch, ich, ppc, ipc, ints, jpc, once, runner, ci, ck, ran, stopped, si, exited, stopper>>
 
 LeaveOnce(who) ==
-    /\ Alive /\ once = "running" /\ runner = who /\ ci > n
+    /\ Alive /\ once = "running" /\ runner = who /\ ci > Len(list)
     /\ once' = "done" /\ runner' = "-"
     /\ IF who = "p" THEN ppc' = "stop" /\ UNCHANGED jpc ELSE jpc' = "exit" /\ UNCHANGED ppc
-    /\ UNCHANGED <<n, pending, pch, ich, ipc, ints, ci, ck, ran, stopped, si, exited>>
+    /\ UNCHANGED <<n, pending, pch, ich, ipc, ints, ci, ck, ran, stopped, si, exited, stopper, spc, list>>
 
-\* TERM: casket.Stop stops every instance, then os.Exit
+\* TERM: casket.Stop stops the first instance of the list until the list is empty (Instance.Stop
+\* stops the servers and splices the instance out), then os.Exit.  si counts the instances stopped
 PStop ==
     /\ Alive /\ ppc = "stop"
-    /\ IF si <= n THEN stopped' = stopped \cup {si} /\ si' = si + 1 /\ UNCHANGED exited
-                  ELSE exited' = "term" /\ UNCHANGED <<stopped, si>>
-    /\ UNCHANGED <<n, pending, pch, ich, ppc, ipc, ints, jpc, once, runner, ci, ck, ran>>
+    /\ IF list # <<>> THEN stopped' = stopped \cup {Head(list)} /\ si' = si + 1 /\ list' = Tail(list) /\ UNCHANGED exited
+                      ELSE exited' = "term" /\ UNCHANGED <<stopped, si, list>>
+    /\ UNCHANGED <<n, pending, pch, ich, ppc, ipc, ints, jpc, once, runner, ci, ck, ran, stopper, spc>>
 
 \* interrupt loop: the first INT spawns the shutdown goroutine, a second one force-quits
 ITake ==
@@ -107,13 +129,13 @@ ITake ==
     /\ ich' = <<>>
     /\ IF ints > 0 THEN exited' = "force" /\ UNCHANGED <<ints, jpc>>
                    ELSE ints' = 1 /\ jpc' = "once" /\ UNCHANGED exited
-    /\ UNCHANGED <<n, pending, pch, ppc, ipc, once, runner, ci, ck, ran, stopped, si>>
+    /\ UNCHANGED <<n, pending, pch, ppc, ipc, once, runner, ci, ck, ran, stopped, si, stopper, spc, list>>
 
 JExit == /\ Alive /\ jpc = "exit" /\ exited' = "int"
-         /\ UNCHANGED <<n, pending, pch, ich, ppc, ipc, ints, jpc, once, runner, ci, ck, ran, stopped, si>>
+         /\ UNCHANGED <<n, pending, pch, ich, ppc, ipc, ints, jpc, once, runner, ci, ck, ran, stopped, si, stopper, spc, list>>
 
 Next == Deliver \/ PTake \/ POnce \/ JOnce \/ RunCb("p") \/ RunCb("j") \/ LeaveOnce("p") \/ LeaveOnce("j")
-        \/ PStop \/ ITake \/ JExit
+        \/ PStop \/ ITake \/ JExit \/ StopperServers \/ StopperSplice
 Spec == Init /\ [][Next]_vars /\ WF_vars(Next)
 
 \* ---- properties ----------------------------------------------------------
@@ -133,5 +155,5 @@ EventuallyExits == (ppc # "wait" \/ jpc # "none") ~> (exited # "no")
 Stop == FALSE /\ UNCHANGED vars
 Emit == (ppc = "wait" /\ jpc = "none" /\ ints = 0 /\ pch = <<>> /\ ich = <<>> /\ exited = "no" /\ Len(pending) > 0
          /\ once = "idle" /\ stopped = {})
-        => PrintT(<<"CASE", ToJson([n |-> n, sigs |-> pending])>>)
+        => PrintT(<<"CASE", ToJson([n |-> n, sigs |-> pending, stopper |-> stopper])>>)
 =============================================================================
